@@ -394,6 +394,9 @@ def judge_diag(spec, xpn, dt, g, counters, viol):
                 if r == "bounded":
                     u = (xs[:, j] - lo[j]) / (hi[j] - lo[j])
                     tol = tol + 8 * eps * (max(abs(lo[j]), abs(hi[j])) / (hi[j] - lo[j]) + 1) / np.maximum(np.minimum(u, 1 - u), 1e-12)
+        if dt == "float32" and (spec.get("affine") or kind == "affine"):
+            # the float32 fit of mean/std differs from the float64 twin's by the accumulated representation error of the fit data
+            tol = 4 * tol + 4e-3
         counters["jac_points_judged"] += int(ok.sum())
         bad = ~(np.abs(got - ref) <= tol)
         if bad.any():
